@@ -12,18 +12,19 @@ from values import *
 import hlib
 import sentlib as S
 import trainlib as T
+import predlib as P
 
 ID = 'C10'
 PROGRAMS = {'core': dict(crate='vaporetto', features=['train', 'kytea'])}
 UNIT_CAP = 200
-BUDGET_S = {'quick': 200, 'thorough': 1800}
+BUDGET_S = {'quick': 600, 'thorough': 1200}      # wall-clock safety caps (exceeding one is reported as inconclusive); typical quick runs take 1-200 s
 
 CFGS_QUICK = [(0, 0, 0, 0), (1, 1, 1, 1), (2, 2, 2, 2), (2, 3, 1, 2), (1, 2, 3, 1), (3, 1, 1, 3), (3, 3, 3, 3), (0, 2, 2, 0)]
 DICTS = {'none': ([], 4), 'a-ab': (['a', 'ab'], 1), 'words': (['b', 'ab', 'abc', 'あ'], 2)}
 BOUNDS = {
     'quick': {'configurations (char window, char n, type window, type n)': CFGS_QUICK, 'corpora': ['ab-c', 'abc-ba', 'mixed', 'one-char'], 'dictionaries': sorted(DICTS),
               'labels': 'symbolic in {NB,WB,Unknown}^(n-1) for every corpus sentence (decided by the solver where the trainer and the learner boundary branch on them)'},
-    'thorough': {'configurations': 'all (cw, cn, tw, tn) in {0..3}^4', 'corpora': sorted(T.CORPORA), 'dictionaries': sorted(DICTS), 'labels': 'every vector'},
+    'thorough': {'configurations': 'the quick list on every corpus and dictionary; all (cw, cn, tw, tn) in {0..3}^4 on corpora abc-ba and mixed with dictionary a-ab', 'corpora': sorted(T.CORPORA), 'dictionaries': sorted(DICTS), 'labels': 'every vector'},
 }
 OUTSIDE = 'corpus texts, dictionaries and sizes outside the catalogue (the label vectors are covered completely); the learner itself (stub)'
 EXPLANATION = ('Trainer::new / add_example (gen_features) / train are executed (MIR) up to the learner boundary, where the stub records the examples; for every '
@@ -35,15 +36,25 @@ TECHNIQUE = 'bounded symbolic execution of rustc MIR (mirsym): configurations/co
 
 
 def jobs(tier, seed):
-    cfgs = CFGS_QUICK if tier == 'quick' else [(a, b, c, d) for a in range(4) for b in range(4) for c in range(4) for d in range(4)]
-    corpora = ['ab-c', 'abc-ba', 'mixed', 'one-char'] if tier == 'quick' else sorted(T.CORPORA)
     js = []
-    for cfg in cfgs:
-        for cn in corpora:
+    seen = set()
+
+    def add(cfg, cn, dn):
+        name = 'ex/%s/%s/%s' % ('-'.join(map(str, cfg)), cn, dn)
+        if name not in seen:
+            seen.add(name)
+            js.append({'name': name, 'cfg': list(cfg), 'corpus': cn, 'dict': dn})
+    for cfg in CFGS_QUICK:
+        for cn in (['ab-c', 'abc-ba', 'mixed', 'one-char'] if tier == 'quick' else sorted(T.CORPORA)):
             for dn in sorted(DICTS):
                 if tier == 'quick' and dn == 'words' and cn not in ('abc-ba', 'mixed'):
                     continue
-                js.append({'name': 'ex/%s/%s/%s' % ('-'.join(map(str, cfg)), cn, dn), 'cfg': list(cfg), 'corpus': cn, 'dict': dn})
+                add(cfg, cn, dn)
+    if tier == 'thorough':
+        # the whole grid of window / n-gram sizes 0..3 on two corpora with one dictionary
+        for cfg in [(a, b, c, d) for a in range(4) for b in range(4) for c in range(4) for d in range(4)]:
+            for cn in ('abc-ba', 'mixed'):
+                add(cfg, cn, 'a-ab')
     return js
 
 
@@ -149,5 +160,16 @@ def confirm(sc, replay):
     elif ra[0].get('model') != ra[1].get('model'):
         if 'ok' in ra[0] or 'ok' in ra[1]:
             out.append('adding a sentence without annotations changes the trained model')
-    # does the witness itself contain Unknown boundaries next to annotated ones? then the same test on the witness corpus
-    return bool(out), {'native_violations': out, 'n_features': [r.get('n_features') for r in ra]}
+    # (3) the number of distinct features the native trainer registers for the witness corpus (Trainer::n_features, public) must equal the number of
+    #     distinct features of the documented definition
+    rw = replay.run([dict(base, corpus=annotated, id='w')])[0]
+    nat_n = rw.get('n_features')
+    sents = []
+    for c in annotated:
+        text = c['text']
+        sents.append((text, c['labels'], [P.get_type_py(ch) for ch in text]))
+    want = T.expected_examples(sents, tuple(cfg), words, max_len)
+    exp_n = len({k for _, d in want for k in d})
+    if nat_n is not None and want and nat_n != exp_n:
+        out.append('the native trainer registers %d distinct features for the witness corpus, the documented definition gives %d' % (nat_n, exp_n))
+    return bool(out), {'native_violations': out, 'n_features': [r.get('n_features') for r in ra], 'witness_n_features': nat_n, 'expected_n_features': exp_n}
